@@ -40,6 +40,69 @@ def vk_unit(n):
 
 
 PROPS = {
+    "C01": {
+        "v_units": ["capacity.py"],
+        "r": [("prover", lambda n: n.startswith("prover.") or n.startswith("lemma.")), ("verifier", lambda n: n.startswith("verifier.") or n.startswith("proof.verify"))],
+        "claim": "function-level necessary conditions of completeness only: (a) prover/verifier agreement - the Fiat-Shamir schedule "
+                 "the real prove_inner performs (trace-only symbolic run) is the protocol schedule, and is event-for-event the one "
+                 "Proof::verify rebuilds from the returned proof (contract-level lemma); the two opening lists are the verifier's "
+                 "batching order; (b) capacity chain: CommitKey::{max_degree,truncate}, PublicParameters::max_degree, "
+                 "Compiler::max_constraints against their arithmetic specs for all sizes.",
+        "technique": "contract-based deductive verification: ring/trace checker in trace-only mode on prove_inner + Verus on the capacity arithmetic",
+        "level_note": "NOT decided: algebraic completeness (quotient divisibility, FFT, KZG, pairing). prove_inner statements that touch "
+                      "neither transcript nor rng are havocked (listed in the evidence).",
+        "design_ref": "DESIGN.md §4 C01",
+        "assumptions": A_RING + A_VERUS,
+        "trusted": T_RING + T_VERUS,
+        "not_covered": ["algebraic completeness (A1)", "trim / Prover::new / quotient split index arithmetic (not yet under contract)"],
+    },
+    "C02": {
+        "r": [("verifier", lambda n: n.startswith("proof.") or n.startswith("verifier.verify_with_version")), ("widgets", vk_unit)],
+        "claim": "verifier-side necessary conditions of soundness only: in Proof::verify / verify_legacy the ONLY Ok path is "
+                 "guarded by the pairing check on the two computed G1 elements (exit structure compared exactly); every one of the 15 "
+                 "evaluations is bound in [E] with the matching batching coefficient and every opened commitment appears in [F] "
+                 "(V2/V3; the known V1 gap for q_arith,q_c,q_l,q_r is part of the legacy contract); all five widget terms, the "
+                 "permutation term and the four quotient shares are present with the protocol's scalars.",
+        "technique": "contract-based deductive verification: ring/trace contract checker (exact polynomial normal form, exit structure)",
+        "level_note": "NOT decided: soundness against all provers (KZG binding, Schwartz-Zippel). Same units as C03, reported for the "
+                      "obligations that are necessary for soundness.",
+        "design_ref": "DESIGN.md §4 C02",
+        "assumptions": A_RING,
+        "trusted": T_RING,
+        "not_covered": ["soundness proper (cryptographic reduction)"],
+    },
+    "C04": {
+        "r": [("verifier", lambda n: n.startswith("verifier.") or n.startswith("transcript.") or n.startswith("widget.seed")),
+              ("prover", lambda n: n.startswith("prover.transcript_for_version") or n.startswith("prover.prove_with_version") or n.startswith("prover.prove_inner"))],
+        "claim": "Verifier::verify_with_version: length mismatch => Err(InconsistentPublicInputsLen) before anything else; every public "
+                 "input absorbed in order right after the seeded transcript; V1 -> verify_legacy, V2/V3 -> verify; transcript seeding "
+                 "(base/base_v3) absorbs label, constraints, all 15 verifier-key commitments (s_sigma_4 only in V3) and the domain size; "
+                 "Prover::prove_with_version: V1 -> Err(UnsupportedProvingVersion), V2 -> prove_legacy, V3 -> prove_inner; the prover "
+                 "absorbs the same public inputs at the same place.",
+        "technique": "contract-based deductive verification: ring/trace contract checker (transcript as event sequence, exits)",
+        "level_note": "Assumed: merlin API as log events; transcript_label_static returns the label bytes (inside cfg_if!, not under "
+                      "contract); Verifier::new / Prover::new store base(label, vk, constraints). Not decided: 'every other combination "
+                      "yields an error' (random-oracle argument).",
+        "design_ref": "DESIGN.md §4 C04",
+        "assumptions": A_RING,
+        "trusted": T_RING,
+        "not_covered": ["transcript_label_static (cfg_if!)", "public_input_indexes sorted / dense_public_inputs", "Verifier::new"],
+    },
+    "C06": {
+        "r": [("prover", lambda n: n.startswith("prover.sample") or n.startswith("prover.blind") or n.startswith("prover.prove_inner"))],
+        "claim": "masking structure: blind_poly_with_blinders(w, b) == ifft(w) + (sum b_i X^i)(X^n - 1) for 2 and 3 blinders; "
+                 "sample_wire_blinders draws 8 scalars in the order [a0,a1],[b0,b1],[c0,c1],[d0,d1]; blind_poly(_,_,2,_) draws 3; in "
+                 "prove_inner the RNG is drawn exactly 14 times, in this order, each draw used exactly once at its prescribed place "
+                 "(4 wire masks of degree 1, permutation mask of degree 2, b12,b13,b14 in the quotient shares), and the re-randomised "
+                 "shares recombine to t(X) (the three scalars cancel).",
+        "technique": "contract-based deductive verification: ring/trace contract checker (trace-only mode, exact polynomial normal form over X, X^n)",
+        "level_note": "Assumed: BlsScalar::random = one draw; domain.ifft returns n coefficients; no other callee receives rng (checked: "
+                      "every statement mentioning rng is inside the fragment). Not decided: distributional statements.",
+        "design_ref": "DESIGN.md §4 C06",
+        "assumptions": A_RING,
+        "trusted": T_RING,
+        "not_covered": ["two proofs share no commitment / evaluation (distribution statement)"],
+    },
     "C03": {
         "r": [("verifier", None), ("widgets", vk_unit)],
         "claim": "Proof::verify (V2/V3), verify_legacy (V1), Verifier::verify_with_version, the six widget "
@@ -59,10 +122,13 @@ PROPS = {
                         "Verifier::new establishing self.transcript == base(label, vk, constraints)"],
     },
     "C05": {
-        "r": [("widgets", pk_unit)],
+        "r": [("widgets", pk_unit), ("prover", lambda n: n.startswith("quotient.")), ("composer_leaves", lambda n: "internal" in n)],
         "claim": "the five ProverKey::compute_quotient_i / compute_linearization and the permutation quotient/linearizer "
                  "terms equal, as polynomials in all their inputs, the gate identities of specs/ring/protocol.py times "
-                 "selector and separation challenge (all field values, all rows).",
+                 "selector and separation challenge (all field values, all rows); quotient_poly::compute returns "
+                 "Err(CircuitUnsatisfied) exactly when the interpolated quotient has more than 7n coefficients and Ok(it) otherwise; "
+                 "append_custom_gate_internal records every appended row's four wires in the permutation map and pushes the "
+                 "constraint's selectors verbatim (effect trace).",
         "technique": "contract-based deductive verification: ring/trace contract checker (exact polynomial normal form)",
         "level_note": "Decides only the per-row identities computed by the prover. Not decided: the equivalence between "
                       "`quotient degree <= 7n` and row-wise satisfaction (polynomial division over the FFT), sigma construction.",
@@ -74,6 +140,7 @@ PROPS = {
     },
     "C08": {
         "v_units": ["composer_base.py", "composer_bits_select.py"],
+        "r": [("composer_leaves", None)],
         "claim": "code contracts (CANON model, all field values, all selector tuples): the Constraint builder, append_gate, "
                  "append_evaluated_output (all three q_O paths: exactly one row, output witness c with q_O*c + x = 0 mod r, None iff q_O = 0), "
                  "gate_add/gate_mul (returned witness == x), assert_equal, assert_equal_constant, append_constant, append_public, "
